@@ -35,10 +35,14 @@ def first_hdr_axioms():
 
 # ------------------------------------------------------------------ assumed behaviour of the environment
 def popen_rule(E, st, node, args, kws, k):
+    from pyvc.vals import VInt
+    if 'nspawn' in st.ghost:
+        st.ghost['nspawn'] = VInt(st.ghost['nspawn'].z + 1)          # one more child process asked for (ghost G.nspawn)
     s2 = st.copy()
     s2.path.append('Popen!OSError')
     return [(s2, 'raise', VExc('OSError'))] + k(st, VObj('Child', z3.Const(fresh_name('child'), usort('Child'))))
-popen_rule.__name__ = 'subprocess.Popen(...): returns a child or raises OSError (cannot be started)'
+popen_rule.__name__ = 'subprocess.Popen(...): returns a child or raises OSError (cannot be started); ghost G.nspawn += 1'
+popen_rule.modifies = ['G.nspawn']
 
 
 def join_rule(E, st, node, args, kws, k):
@@ -152,12 +156,13 @@ SPAWN = {
     'params': {'result': 'Rec[SubResult]', 'script_parts': 'Opt[List[Str]]', 'options': 'Rec[Options]',
                'features': 'List[Feature]', 'layer_name': 'Str', 'layer': 'Layer', 'failures': LISTS, 'errors': LISTS,
                'skipped': LISTS, 'resume_number': 'int', 'cwd': 'Any'},
-    'ghost': {'errlines': 'List[Line]', 'got_lines': 'bool', 'killed': 'bool'},
+    'ghost': {'errlines': 'List[Line]', 'got_lines': 'bool', 'killed': 'bool', 'nspawn': 'int'},
     'locals': {'stderr_buf': 'List[Bytes]', 'new_failures': LISTS, 'new_errors': LISTS, 'args': 'List[Str]'},
-    'requires': ["not G.got_lines", "len(options.original_testrunner_args) >= 1", "not G.killed"],
-    'modifies': ['result.num_ran', 'result.done', 'failures', 'errors', 'G.errlines', 'G.got_lines', 'G.killed'],
+    'requires': ["not G.got_lines", "len(options.original_testrunner_args) >= 1", "not G.killed", "G.nspawn == 0"],
+    'modifies': ['result.num_ran', 'result.done', 'failures', 'errors', 'G.errlines', 'G.got_lines', 'G.killed', 'G.nspawn'],
     'ensures': [
         "result.done",                                                      # P3: on every path
+        "G.nspawn <= 1",                                                    # C03: at most one child was asked for
         # P2 + "could not be started / died / delivered nothing": exactly one error for the layer, no names
         "implies(not G.got_lines, " + ONE_ERROR + ")",
         "implies(G.got_lines and " + H + " == -1, " + ONE_ERROR + ")",
@@ -179,6 +184,7 @@ SPAWN = {
         # C03: the child is re-invoked with '--resume-layer <name> <n>', the parent's defaults and its original arguments
         'child.communicate': REAP_AFTER_KILL, 'child.wait': REAP_AFTER_KILL,
         'subprocess.Popen': [
+            "G.nspawn == 0",            # C03: one child per layer -- a second one would run the layer's tests a second time
             "has_kw_cwd", "_kw_cwd == cwd",             # C03: started in the directory handed down from run_internal (startdir_c03)
             "args[0] == executable()",
             "args[len(args) - (len(options.original_testrunner_args) - 1) - 2 * len(options.testrunner_defaults) - 3] == '--resume-layer'",
